@@ -24,13 +24,14 @@ mkdir -p "$wt/SEED"; cp "$dst/demo.cpp" "$dst/run_demo.sh" "$wt/SEED/"
 git -C /repo worktree remove --force "$wt" >/dev/null 2>&1
 echo "seed=$sid demo_clean_exit=$clean build_exit=$build ctest_ok=$((1-tests)) demo_patched_exit=$patched"
 # 3. our checks
-cd /repo && git diff --quiet || { echo "repo dirty"; exit 2; }
-git -C /repo apply "$dst/patch.diff" || { echo "patch does not apply to /repo"; exit 2; }
+R=${THEO_REPO:-/repo}      # a clone of /repo may be given, so that other checks can run on /repo meanwhile
+cd "$R" && git diff --quiet || { echo "repo dirty"; exit 2; }
+git -C "$R" apply "$dst/patch.diff" || { echo "patch does not apply to $R"; exit 2; }
 res=""
 for p in "$@"; do
   out=$(cd /verif && timeout 3000 ./check $p 2>&1 | grep -E "^VIOLATION|^KNOWN|Traceback" | head -2 | tr '\n' ' ')
   echo "  check $p :: $out"
   res="$res $p:[$out]"
 done
-git -C /repo checkout -- . ; python3 /verif/tools/translate.py >/dev/null
+git -C "$R" checkout -- . ; [ "$R" = /repo ] && python3 /verif/tools/translate.py >/dev/null
 echo "{\"seed\": \"$sid\", \"demo_clean_exit\": $clean, \"build_exit\": $build, \"ctest_12_pass\": $((1-tests)), \"demo_patched_exit\": $patched, \"checks\": \"$(echo $res | sed 's/"/\\"/g')\"}" > "$dst/validation.json"
